@@ -41,6 +41,7 @@ type Engine struct {
 	readsMemo  map[*ssa.Function]*readSet
 	implMemo   map[string][]types.Type
 	heapReg    map[string]*heapInfo
+	excluded   map[string]string // function key -> reason it is excluded from interface-level sweeps
 }
 
 func (e *Engine) noteAssumption(s string) {
@@ -75,7 +76,7 @@ func loadEngine(repo string, pkgPatterns []string, extraSpecDirs []string) (*Eng
 	prog, _ := ssautil.AllPackages(pkgs, ssa.NaiveForm|ssa.GlobalDebug)
 	e := &Engine{repo: repo, prog: prog, pkgs: map[string]*packages.Package{}, spkgs: map[string]*ssa.Package{},
 		contracts: map[string]*FuncContract{}, specs: map[string]*SpecFunc{}, ghosts: map[string]*GhostField{},
-		assumptions: map[string]bool{}, namedTypes: map[string]types.Type{}}
+		assumptions: map[string]bool{}, namedTypes: map[string]types.Type{}, excluded: map[string]string{}}
 	packages.Visit(pkgs, nil, func(p *packages.Package) {
 		if strings.HasPrefix(p.PkgPath, repoModule) {
 			e.pkgs[p.Name] = p
@@ -140,6 +141,13 @@ func (e *Engine) addSpecFile(path, pkgName string) error {
 	}
 	for _, g := range sf.Ghosts {
 		e.ghosts[g.Struct+"."+g.Name] = g
+	}
+	for k, v := range sf.Excluded {
+		key := k
+		if pkgName != "" {
+			key = pkgName + "." + k
+		}
+		e.excluded[key] = v
 	}
 	e.lemmas = append(e.lemmas, sf.Lemmas...)
 	e.scan = append(e.scan, sf.RawText...)
